@@ -24,6 +24,7 @@ import (
 const RealRPC Mode = 2
 
 type memNet struct {
+	lab   *Lab
 	mu    sync.Mutex
 	nodes map[uint64]*memTransport
 	ctx   context.Context
@@ -47,6 +48,12 @@ func (t *memTransport) DialStream(ctx context.Context, peer *protocol.Node, kind
 	if dst == nil {
 		return nil, fmt.Errorf("memnet: no route to node %d", peer.GetId())
 	}
+	if m := t.net.lab.Member(peer.GetId()); m != nil && m.State() == chord.Left {
+		// the process of a node that has left is gone: connections are refused at once (without
+		// this a left node would be a black hole and every call to it would cost the 10 s RPC
+		// timeout, freezing the callers' stabilization for longer than the churn takes)
+		return nil, fmt.Errorf("memnet: connection refused by node %d (it has left)", peer.GetId())
+	}
 	c1, c2 := bufconn.BufferedPipe(8192)
 	select {
 	case dst.accept <- &transport.StreamDelegate{Conn: c1, Identity: &protocol.Node{Id: peer.GetId(), Address: t.ident.GetAddress()}, Kind: kind}:
@@ -68,7 +75,7 @@ func (l *Lab) memnet() *memNet {
 	defer l.mu.Unlock()
 	if l.mnet == nil {
 		ctx, cancel := context.WithCancel(context.Background())
-		l.mnet = &memNet{nodes: map[uint64]*memTransport{}, ctx: ctx, stop: cancel}
+		l.mnet = &memNet{lab: l, nodes: map[uint64]*memTransport{}, ctx: ctx, stop: cancel}
 	}
 	return l.mnet
 }
